@@ -641,6 +641,37 @@ def correspondence(ctx):
             j = nxt
     if suspects and not ctx.broken_ties:
         ctx.tie_broken("correspondence C vs extracted model differs")
+    # ---- second build configuration: A_SIZE_POINTER 4 (the documented configuration macro of a.cmake.h; 32-bit targets): code
+    # selected by it must compute the same CRCs and hashes
+    cfg4 = ctx.build / "cfg_ptr4.h"
+    txt4 = ctx.cfg_header().read_text().replace("#define A_SIZE_POINTER 8", "#define A_SIZE_POINTER 4")
+    search_bin = cbin
+    if "#define A_SIZE_POINTER 4" in txt4:
+        if not cfg4.exists() or cfg4.read_text() != txt4:
+            cfg4.write_text(txt4)
+        pbin = ctx.cc("drv_ptr4", [vlib.VERIF / "harness" / PID / "drv.c"], repo_srcs=["crc.c", "hash.c"], mode="asan",
+                      defines=['A_HAVE_H="%s"' % cfg4])
+        p_res = run_sharded(pbin, shards)
+        npd = 0
+        for idx, (rc, cout, cerr), (rc2, mout, merr) in zip(shards_idx, p_res, m_res):
+            cl, ml_ = cout.splitlines(), mout.splitlines()
+            flat = [(gi, ln) for gi in idx for ln in groups[gi]]
+            j = vlib.first_diff(cl, ml_)
+            if rc != 0 or j is not None:
+                npd += 1
+                if j is not None and j < len(flat):
+                    g = groups[flat[j][0]]
+                    if flat[j][1][0] != "T" and g[0][0] == "T":
+                        suspects.append([g[0], flat[j][1]])
+                    suspects.append(g)
+                if npd == 1:
+                    ctx.tie_broken("correspondence C built with A_SIZE_POINTER 4 vs extracted model: %s" % (
+                        "driver aborted: " + " ".join(cerr.split())[-200:] if j is None else
+                        "line %d differs: case `%s`  C: %s  model: %s" % (j, flat[j][1][:120] if j < len(flat) else "?",
+                                                                        (cl[j] if j < len(cl) else "<missing>")[:100],
+                                                                        (ml_[j] if j < len(ml_) else "<missing>")[:100])))
+                    search_bin = pbin
+        ctx.cov["pointer_size_4_configuration_shards_differing"] = npd
     # ---- evidence
     kinds = {}
     sizes = {"0": 0, "1-8": 0, "9-64": 0, "65-255": 0, "256-300": 0}
@@ -705,7 +736,7 @@ def correspondence(ctx):
     # ---- search oracle when something broke
     if ctx.broken_ties:
         corpus_groups = groups[:n_corpus]
-        search(ctx, cbin, suspects + corpus_groups, n_fresh=150 if ctx.quick else 1500)
+        search(ctx, search_bin, suspects + corpus_groups, n_fresh=150 if ctx.quick else 1500)
 
 
 def replay(ctx, path):
